@@ -52,7 +52,7 @@ func (p *Program) verifyFunc(key string, mode string) (u *Unit) {
 	e := p.newEncFor(key)
 	u.Enc = e
 	e.topFC = fc
-	if mode == "safety" {
+	if mode == "safety" || mode == "safety-auto" {
 		u.Kind = "sweep"
 	}
 	if mode == "nosafety" {
@@ -113,6 +113,12 @@ func (p *Program) verifyFunc(key string, mode string) (u *Unit) {
 	}
 	for _, fv := range fn.FreeVars {
 		bind(fv, fv.Name())
+	}
+	if mode == "safety-auto" && hasRecv && len(fn.Params) > 0 {
+		// objects are built by constructors: a method is not called on a nil receiver
+		if rv := f.vals[fn.Params[0]]; rv != nil && c.sortOf(fn.Params[0].Type()) == sortRef {
+			c.assert(not(eq(rv.T, "nil")))
+		}
 	}
 	if fn.Synthetic == "package initializer" {
 		// the initialiser body runs exactly once: its guard is false on entry
